@@ -1558,6 +1558,9 @@ fn aggregate_scalar_simd(
             } else if let Some(a) = input.as_any().downcast_ref::<Float64Array>() {
                 let sum = a.iter().flatten().fold(0.0f64, |acc, x| acc + x);
                 Arc::new(Float64Array::from(vec![sum / non_null_count as f64]))
+            } else if let Some(a) = input.as_any().downcast_ref::<arrow::array::Int32Array>() {
+                let sum = a.iter().flatten().fold(0i64, |acc, x| acc + x as i64);
+                Arc::new(Float64Array::from(vec![sum as f64 / non_null_count as f64]))
             } else {
                 return Err(QueryError::NotImplemented(format!(
                     "AVG not implemented for type {:?}",
@@ -1567,14 +1570,9 @@ fn aggregate_scalar_simd(
         }
         AggregateFunction::Min => {
             if let Some(a) = input.as_any().downcast_ref::<Int64Array>() {
-                let min = a.iter().flatten().min().unwrap_or(i64::MAX);
-                Arc::new(Int64Array::from(vec![min]))
+                Arc::new(Int64Array::from(vec![a.iter().flatten().min()]))
             } else if let Some(a) = input.as_any().downcast_ref::<Float64Array>() {
-                let min = a
-                    .iter()
-                    .flatten()
-                    .min_by(|a, b| a.partial_cmp(b).unwrap())
-                    .unwrap_or(f64::MAX);
+                let min = a.iter().flatten().min_by(|a, b| a.partial_cmp(b).unwrap());
                 Arc::new(Float64Array::from(vec![min]))
             } else if let Some(a) = input.as_any().downcast_ref::<StringArray>() {
                 let min = a.iter().flatten().min();
@@ -1583,8 +1581,7 @@ fn aggregate_scalar_simd(
                     None => Arc::new(StringArray::from(vec![Option::<&str>::None])),
                 }
             } else if let Some(a) = input.as_any().downcast_ref::<Date32Array>() {
-                let min = a.iter().flatten().min().unwrap_or(i32::MAX);
-                Arc::new(Date32Array::from(vec![min]))
+                Arc::new(Date32Array::from(vec![a.iter().flatten().min()]))
             } else if let Some(a) = input.as_any().downcast_ref::<arrow::array::Int32Array>() {
                 Arc::new(arrow::array::Int32Array::from(vec![a
                     .iter()
@@ -1599,14 +1596,9 @@ fn aggregate_scalar_simd(
         }
         AggregateFunction::Max => {
             if let Some(a) = input.as_any().downcast_ref::<Int64Array>() {
-                let max = a.iter().flatten().max().unwrap_or(i64::MIN);
-                Arc::new(Int64Array::from(vec![max]))
+                Arc::new(Int64Array::from(vec![a.iter().flatten().max()]))
             } else if let Some(a) = input.as_any().downcast_ref::<Float64Array>() {
-                let max = a
-                    .iter()
-                    .flatten()
-                    .max_by(|a, b| a.partial_cmp(b).unwrap())
-                    .unwrap_or(f64::MIN);
+                let max = a.iter().flatten().max_by(|a, b| a.partial_cmp(b).unwrap());
                 Arc::new(Float64Array::from(vec![max]))
             } else if let Some(a) = input.as_any().downcast_ref::<StringArray>() {
                 let max = a.iter().flatten().max();
@@ -1615,8 +1607,7 @@ fn aggregate_scalar_simd(
                     None => Arc::new(StringArray::from(vec![Option::<&str>::None])),
                 }
             } else if let Some(a) = input.as_any().downcast_ref::<Date32Array>() {
-                let max = a.iter().flatten().max().unwrap_or(i32::MIN);
-                Arc::new(Date32Array::from(vec![max]))
+                Arc::new(Date32Array::from(vec![a.iter().flatten().max()]))
             } else if let Some(a) = input.as_any().downcast_ref::<arrow::array::Int32Array>() {
                 Arc::new(arrow::array::Int32Array::from(vec![a
                     .iter()
